@@ -336,10 +336,12 @@ mzd_t *mzd_from_jcf(const char *fn, int verbose) {
   long j = 0;
 
   while (fscanf(fh, "%ld\n", &j) == 1) {
-    if (j < 0) { i++, j = -j; }
-    if (((j - 1) >= n) || (i >= m))
-      m4ri_die("trying to write to (%ld,%ld) in %ld x %ld matrix\n", i, j - 1, m, n);
-    mzd_write_bit(A, i, j - 1, 1);
+    if (j < 0) { i++; }
+    /* one-based column index, negative when it starts a new row: 1 <= |j| <= n */
+    if ((j == 0) || (j > n) || (j < -(long)n) || (i < 0) || (i >= m))
+      m4ri_die("trying to write to (%ld,%ld) in %ld x %ld matrix\n", i, (j < 0) ? -(j + 1) : j - 1,
+               (long)m, (long)n);
+    mzd_write_bit(A, i, (j < 0) ? -(j + 1) : j - 1, 1);
   };
 
 from_jcf_close_fh:
